@@ -153,11 +153,22 @@ struct Par<'a> {
 
 /// one configuration: any model implementing `Residual` (equations of state and Helmholtz energy functionals used as bulk models)
 fn one<R: Residual>(name: &str, model: &Arc<R>, ncomp: usize, t_scale: f64, par: &Par, oracle_only: bool) -> Value {
+    one_x(name, model, ncomp, t_scale, par, oracle_only, None)
+}
+
+/// `edge = Some(i)`: the composition on the boundary of the simplex where component i is absent (oracle only)
+fn one_x<R: Residual>(base: &str, model: &Arc<R>, ncomp: usize, t_scale: f64, par: &Par, oracle_only: bool, edge: Option<usize>) -> Value {
+    let name_owned = match edge { Some(i) => format!("{base}_edge{i}"), None => base.to_string() };
+    let name: &str = &name_owned;
+    let oracle_only = oracle_only || edge.is_some();
     let (out_dir, full, seed, k_t, lim3, prec) = (par.out_dir, par.full, par.seed, par.k_t, par.lim3, par.prec);
         let mut rng = Rng(seed ^ trace::fxhash(&name) ^ 0xC13);
         let m = model.as_ref();
         // one composition per configuration
         let mut x: Vec<f64> = (0..ncomp).map(|_| rng.range(0.1, 1.0)).collect();
+        if let Some(i) = edge {
+            x[i] = 0.0;
+        }
         let s: f64 = x.iter().sum();
         x.iter_mut().for_each(|xi| *xi /= s);
         let rho_max = m.compute_max_density(&Array1::from_vec(x.clone()));
@@ -241,7 +252,7 @@ fn one<R: Residual>(name: &str, model: &Arc<R>, ncomp: usize, t_scale: f64, par:
             })
             .collect();
         json!({
-            "name": name, "ncomp": ncomp, "x": x, "temperatures": ts, "rho_max": rho_max,
+            "name": name, "base": base, "ncomp": ncomp, "x": x, "temperatures": ts, "rho_max": rho_max,
             "ninstr": ninstr, "outs": prog.outs, "order3": do3, "enclosed": enclosed,
             "leaks_rho0": c0.leaks.len(), "shape_stable_rho0": c0.same_shape,
             "leaks_fd": cf.leaks.len(), "shape_stable_fd": cf.same_shape,
@@ -266,6 +277,12 @@ pub fn run(out_dir: &str, tier: &str, seed: u64, only: Option<String>) -> Value 
     let mut results = Vec::new();
     for c in &cfgs {
         results.push(one::<ResidualModel>(&c.name, &c.model, c.ncomp, c.t_scale, &par, false));
+        // the boundary of the composition simplex: one component absent (public virial functions vs the low-density limit of states)
+        if c.ncomp >= 2 && only.is_none() {
+            for i in if full { (0..c.ncomp).collect::<Vec<_>>() } else { vec![0] } {
+                results.push(one_x::<ResidualModel>(&c.name, &c.model, c.ncomp, c.t_scale, &par, true, Some(i)));
+            }
+        }
     }
     // Helmholtz energy functionals used as bulk models (they implement `Residual`, so the virial functions exist for them)
     {
